@@ -144,7 +144,7 @@ func propC05(c *Check) {
 	terms := func(fnKey, txField, feeField, ids string, replace bool) {
 		h := p.MustFn(fnKey)
 		tx := "new(wire.MsgTx)#0"
-		i := "(1 + φ{-1|@})"
+		i := "φ{(1 + @)|0}"
 		W := "Withdrawals.Get(" + ids + "[" + i + "])#0"
 		net := "bitcoin/types.BitcoinNetworks[Params.Get()#0.NetworkName]"
 		var sets []ssa.Instruction
@@ -260,8 +260,8 @@ func propC05(c *Check) {
 	terms("x/bitcoin/keeper.msgServer.ReplaceWithdrawal", "$2.NewNoWitnessTx", "$2.NewTxFee", "Processing.Get($2.Pid)#0.Withdrawals", true)
 
 	// R4 finalize
-	i := "(1 + φ{-1|@})"
-	idx := "φ{" + i + "|-1}"
+	i := "φ{(1 + @)|0}"
+	idx := "φ{-1|" + i + "}"
 	c.RequireFact(fin, "R4", "Validate", lit("(MsgFinalizeWithdrawal.Validate($2) == nil)"), nil, "")
 	c.RequireFact(fin, "R4", "processing-entry", lit("(Processing.Get($2.Pid)#1 == nil)"), nil, "")
 	c.RequireFact(fin, "R4", "txid-found", lit(NE("-1", idx)), nil, "")
@@ -440,7 +440,7 @@ func propC05(c *Check) {
 		c.touch(pbr)
 		r := p.R(pbr)
 		id := "$2.Withdraws[" + i + "].Id"
-		acc := "φ{nil|φ{@|append(@, [" + id + "])}}"
+		acc := "φ{append(@, [" + id + "])|nil}"
 		var A []*ssa.Store
 		for _, s := range rej[FuncKey(pbr)] {
 			A = append(A, s)
@@ -491,7 +491,7 @@ func propC05(c *Check) {
 			// an id put into the accumulator is always flushed before success
 			for _, ci := range p.FindCalls(pbr, `^append\(.*, \[`+regexp.QuoteMeta(id)+`\]\)$`) {
 				// after an append the accumulator is non-empty: the edge len(acc) <= 0 is infeasible
-				empty := edgeSet(p.MatchEdges(pbr, regexp.MustCompile(lit("(len("+acc+") <= 0)"))))
+				empty := edgeSet(p.MatchEdges(pbr, regexp.MustCompile(lit(EQ("0", "len("+acc+")")))))
 				ps := &PathSearch{Fn: pbr, From: ci, AvoidInstr: instrSet([]ssa.Instruction{A[0]}), AvoidEdges: empty, IsTarget: successTargets(pbr)}
 				if t, path := ps.Find(); t != nil {
 					c.Violated("R2", "refund-flushed @ "+FuncKey(pbr), p.InstrPos(t), "a refunded id can be dropped: success reachable without flushing the accumulator", p.describePath(path)...)
@@ -506,7 +506,7 @@ func propC05(c *Check) {
 func edgeSet(es []EdgeFact) map[edgeKey]bool {
 	m := map[edgeKey]bool{}
 	for _, e := range es {
-		m[edgeKey{e.Block, e.Idx}] = true
+		m[e.Key()] = true
 	}
 	return m
 }
